@@ -9,6 +9,7 @@ import (
 	"io"
 	"log"
 	"os"
+	"runtime"
 	"sort"
 	"strconv"
 	"strings"
@@ -211,6 +212,10 @@ func (w *wrapped) Write(p []byte) (int, error) {
 		vsched.Yield("writer")
 	case "blocks":
 		vsched.Block("writer-blocked-forever", func() bool { return false })
+	case "goexit":
+		// the destination ends the goroutine it is called on (what t.FailNow does in a test's sink): the
+		// consumer is gone, Close must still return
+		runtime.Goexit()
 	}
 	if string(p) != s {
 		w.r.mutated = true
@@ -568,6 +573,15 @@ func judge(cfg Config, r *result) verdict {
 		if cfg.Writer == "blocks" {
 			return v
 		}
+		if cfg.Writer == "goexit" {
+			// the consumer goroutine was ended by the destination: nothing more can be delivered, but
+			// Close must not wait for it forever
+			if (r.quiescentSeen || cfg.Early) && r.producersDone == cfg.P && !r.closeReturned {
+				v.msg = fmt.Sprintf("Close did not return after the destination ended the consumer goroutine with runtime.Goexit (deadlock=%v, step bound hit=%v)", s.Deadlock, s.StepLimit)
+			}
+			v.nontrivial = true
+			return v
+		}
 		switch {
 		case r.producersDone == cfg.P && !r.quiescentSeen && (s.Deadlock || s.StepLimit):
 			v.msg = fmt.Sprintf("system never became quiescent after all Writes returned (deadlock=%v step bound=%v)", s.Deadlock, s.StepLimit)
@@ -739,6 +753,9 @@ func genConfig(rt *rapid.T, small bool) Config {
 	c.Early = rapid.Bool().Draw(rt, "early") // for C10 too: Close racing the consumer must not change what is delivered, or how
 	c.NilAlert = rapid.IntRange(0, 7).Draw(rt, "nilalert") == 0
 	c.BigCap = prop == "C10" && rapid.IntRange(0, 5).Draw(rt, "bigcap") == 0
+	if prop == "C12" && rapid.IntRange(0, 9).Draw(rt, "goexit") == 0 {
+		c.Writer = "goexit"
+	}
 	c.LateWrite = c.Writer == "blocks" && rapid.Bool().Draw(rt, "latewrite")
 	if c.Writer != "blocks" && rapid.IntRange(0, 3).Draw(rt, "errs") == 0 {
 		c.Errs = rapid.SampledFrom([]string{"zero", "partial", "closed", "temporary"}).Draw(rt, "errkind")
@@ -840,6 +857,12 @@ func dfsConfigs() []struct {
 		// Close arriving while the consumer is inside the wrapped writer and the ring is full again behind it
 		for _, poller := range []bool{false, true} {
 			out = append(out, cb{Config{P: 1, W: 3, Size: 2, Poller: poller, Writer: "yields", Early: true}, 2}, cb{Config{P: 1, W: 4, Size: 3, Poller: poller, Writer: "yields", Early: true}, 2})
+		}
+	}
+	if prop == "C12" {
+		// a destination that ends the consumer goroutine (runtime.Goexit, as t.FailNow does): Close returns all the same
+		for _, poller := range []bool{false, true} {
+			out = append(out, cb{Config{P: 1, W: 2, Size: 2, Poller: poller, Writer: "goexit"}, 2}, cb{Config{P: 1, W: 1, Size: 1, Poller: poller, Writer: "goexit", Early: true}, 2})
 		}
 	}
 	if prop == "C10" {
